@@ -82,6 +82,18 @@ def programs(ctx):
             skipped[fid] = skipped.get(fid, 0) + 1
             continue
         out.append(('head', rules))
+    # exhaustive small family for the ranges of the domain rule: two atoms whose ranges start at the same offset and end differently
+    # (bounded first / unbounded first), at offsets 0 and 1, as disjunction and conjunction, in every part
+    A_, B_ = ('atom', 'a'), ('atom', 'b')
+    for part in ('initial', 'always', 'dynamic'):
+        for op in ('or', 'and'):
+            for (x, y) in ((A_, ('until', None, B_)), (('until', None, B_), A_), (A_, ('release', None, B_)), (('release', None, B_), A_),
+                           (('next', None, A_), ('next', None, ('until', None, B_))), (('next', None, ('release', None, B_)), ('next', None, A_)),
+                           (A_, ('seqnext', B_, ('until', None, A_))), (('until', B_, A_), ('next', 2, B_))):
+                rules = [{'part': part, 'head': ('tel', (op, x, y)), 'body': []}]
+                if op == 'and':
+                    rules.append({'part': 'always', 'head': ('choice', ['a', 'b']), 'body': []})
+                out.append(('head-ranges', rules))
     return out
 
 
